@@ -20,6 +20,7 @@ R12.3 partial operations on input-derived values (constant subscripts on
 from __future__ import annotations
 
 import ast
+import os
 
 from engine.common import AnalysisError
 from engine.absint import Evaluator, Obj, Raised
@@ -437,6 +438,12 @@ def r127(report, index, lm, pm, tier):
             if len(v.args) == 1 and isinstance(v.args[0], str):
                 return '%s: %s' % (v.kind, v.args[0])
             return 'ECMASyntaxError-with-arguments %r' % (v.args,)
+        if v is None and e.text.startswith(('ECMASyntaxError(',
+                                            'ECMARegexSyntaxError(')):
+            # the operand of the raise could not be evaluated: no verdict
+            # on the message may be derived from its source text
+            raise AnalysisError('the message of `raise %s` could not be '
+                                'evaluated' % e.text[:120])
         return e.text
 
     def evaluator(*a, **k):
@@ -516,24 +523,49 @@ def r127(report, index, lm, pm, tier):
             starts = [0] + [m.end() for m in _re.finditer(LT_SPLIT, text)]
             err = toks[3]
             err.value = text[err.lexpos:]
-            for with_prev in (True, False):
-                lexer = Obj('Lexer', cur_token=toks[2] if with_prev else None,
-                            error_token_handlers=[],
-                            newline_idx=list(starts),
-                            lexer=Obj('PlyLexer', lexdata=text,
-                                      lexpos=err.lexpos,
-                                      lineno=len(starts)))
-                ev = evaluator(lm, 'Lexer', lmeth)
-                out = 'returns'
-                try:
-                    ev.call(t_error, [err], self_obj=lexer)
-                except Raised as e:
-                    out = raised_text(e)
-                judge('t_error after %s%s' % (
-                    describe(v) if with_prev else 'no token',
-                    ' on line 2' if prefix else ''),
-                    'Lexer.t_error at %r of %r' % ('#', text), text, out,
-                    'lexers/es5.py:t_error / utils.py:format_lex_token')
+            # the lexer is a fresh one (all attributes Lexer.__init__
+            # sets) advanced to the error: after a real token, at the very
+            # start, or - comments captured or yielded - with a comment as
+            # the raw previous token, with and without a real token before
+            from .c04 import mk_lexer_obj
+            text_c, toks_c = layout_tokens(prefix, [
+                ('x', 'ID'), ('=', 'EQ'), (v, t),
+                ('/*c*/', 'BLOCK_COMMENT'), ('#', 'error')])
+            text_0, toks_0 = layout_tokens(prefix, [
+                ('/*c*/', 'BLOCK_COMMENT'), ('#', 'error')])
+            for state, txt, cur, real, err in (
+                    ('after %s' % describe(v), text, toks[2], toks[2],
+                     toks[3]),
+                    ('no token', text, None, None, toks[3]),
+                    ('a comment, no token', text_0, toks_0[0], None,
+                     toks_0[1]),
+                    ('a comment after %s' % describe(v), text_c, toks_c[3],
+                     toks_c[2], toks_c[4])):
+                is_c = cur is not None and cur.type == 'BLOCK_COMMENT'
+                starts = [0] + [m.end() for m in _re.finditer(LT_SPLIT, txt)]
+                err.value = txt[err.lexpos:]
+                for wc in ((False, True) if is_c else (False,)):
+                    lexer = mk_lexer_obj(lm=M_lexmodel)
+                    lexer.cur_token = cur
+                    lexer.cur_token_real = real
+                    lexer.valid_prev_token = real
+                    lexer.with_comments = wc
+                    lexer.yield_comments = is_c and not wc
+                    lexer.error_token_handlers = []
+                    lexer.newline_idx = list(starts)
+                    lexer.lexer = Obj('PlyLexer', lexdata=txt,
+                                      lexpos=err.lexpos, lineno=len(starts))
+                    ev = evaluator(lm, 'Lexer', lmeth)
+                    out = 'returns'
+                    try:
+                        ev.call(t_error, [err], self_obj=lexer)
+                    except Raised as e:
+                        out = raised_text(e)
+                    judge('t_error %s%s%s' % (
+                        state, ' (comments captured)' if wc else '',
+                        ' on line 2' if prefix else ''),
+                        'Lexer.t_error at %r of %r' % ('#', txt), txt, out,
+                        'lexers/es5.py:t_error / utils.py:format_lex_token')
         # regex error: the remaining input is quoted
         text, toks = layout_tokens(prefix, [('x', 'ID'), ('=', 'EQ'),
                                             ('/ab[c', 'error')])
@@ -690,6 +722,37 @@ def text_passthrough_rule(report, index, rid):
                     'Lexer.input text %r' % text, 'Lexer.input(%r)' % text,
                     'the ply lexer is given %r' % (got,),
                     where='lexers/es5.py:Lexer.input', witness=text)
+    # the stream entry point: what the stream holds is what is parsed
+    iom = index.module('calmjs.parse.io')
+    if iom is not None and 'read' in iom.functions:
+        from .c18 import io_evaluator
+        for text in texts:
+            for arrangement in ('open stream', 'factory'):
+                seen = []
+
+                def parser(t, seen=seen):
+                    seen.append(t)
+                    return Obj('ES5Program', sourcepath=None)
+                sobj = Obj('Stream', name='src.js',
+                           read=('pyfunc', lambda text=text: text),
+                           close=('pyfunc', lambda: None))
+                stream = sobj if arrangement == 'open stream' else (
+                    'pyfunc', lambda sobj=sobj: sobj)
+                ev = io_evaluator(iom)
+                try:
+                    ev.call(iom.functions['read'], [('pyfunc', parser),
+                                                    stream])
+                    got = seen[0] if seen else None
+                except Raised as e:
+                    got = 'raises %s' % e.text
+                r.check(got == text and len(seen) == 1,
+                        'io.read (%s) text %r' % (arrangement, text),
+                        'io.read(parser, <%s holding %r>)' % (
+                            arrangement, text),
+                        'the parser is given %r: positions in the tree and '
+                        'in error messages are relative to another text '
+                        'than the content of the stream' % (got,),
+                        where='io.py:read', witness=text)
     return r
 
 
